@@ -195,6 +195,37 @@ func runC15(rec *vkit.Recorder, c *c15Case) []vkit.Violation {
 		rec.Class("neutral/meta-label-added-and-changed")
 	}
 
+	// an entry that spells out the port its scheme defaults to is the entry without the port (a job without rules):
+	// the two collapse into one target, so adding the spelled-out twin changes neither the hashes nor their number
+	if len(c.Job.Rules) == 0 && len(set) > 0 {
+		port := ":80"
+		if c.Job.Scheme == "https" {
+			port = ":443"
+		}
+		var twin []grpSpec
+		added := false
+		for _, g := range c.Groups {
+			ng := grpSpec{Source: g.Source, Labels: g.Labels, Targets: append([]map[string]string{}, g.Targets...)}
+			for _, t := range g.Targets {
+				a := t["__address__"]
+				if a != "" && !strings.Contains(a, ":") && !strings.Contains(a, "/") && t["__scheme__"] == "" && g.Labels["__scheme__"] == "" && !added {
+					cp := map[string]string{}
+					for k, v := range t {
+						cp[k] = v
+					}
+					cp["__address__"] = a + port
+					ng.Targets = append(ng.Targets, cp)
+					added = true
+				}
+			}
+			twin = append(twin, ng)
+		}
+		if added {
+			check("twin-entry-with-the-default-port-spelled-out", twin, &c.Job)
+			rec.Class("neutral/twin-entry-with-default-port")
+		}
+	}
+
 	// the name of the scrape config is not part of a target's identity: when every target carries a discovered `job`
 	// label (Prometheus keeps a non-empty one), renaming the job leaves all final labels and URLs as they were
 	if len(c.Job.Rules) == 0 && len(set) > 0 {
@@ -260,6 +291,21 @@ func runC15(rec *vkit.Recorder, c *c15Case) []vkit.Violation {
 				}
 				j.Params["match[]"] = []string{"a", "b"}
 				return true
+			}},
+			{"param-values-reordered", func(j *jobSpec, gs []grpSpec) bool {
+				// the values after the first exchange their places: another URL
+				if j.Params == nil {
+					j.Params = map[string][]string{}
+				}
+				for k, v := range j.Params {
+					if len(v) >= 3 && v[len(v)-1] != v[len(v)-2] {
+						nv := append([]string{}, v...)
+						nv[len(nv)-1], nv[len(nv)-2] = nv[len(nv)-2], nv[len(nv)-1]
+						j.Params[k] = nv
+						return true
+					}
+				}
+				return false
 			}},
 			{"param-empty-value", func(j *jobSpec, gs []grpSpec) bool {
 				if j.Params == nil {
@@ -425,7 +471,7 @@ func genC15(t *rapid.T) *c15Case {
 	case 2:
 		c.Job.Params = map[string][]string{"match[]": {"{job=\"a\"}", "{job=\"b\"}"}, "module": {"m"}}
 	case 3:
-		c.Job.Params = map[string][]string{"debug": {""}, "x": {"1", "2", "3"}}
+		c.Job.Params = map[string][]string{"debug": {""}, "x": {"1", "2", "3"}, "collect[]": {"cpu", "meminfo", "diskstats", "netdev"}}
 	}
 	if rapid.IntRange(0, 2).Draw(t, "rules") == 0 {
 		c.Job.Rules = []relRule{{Action: "labelmap", Regex: "__meta_kubernetes_pod_label_(.+)"}}
